@@ -466,6 +466,173 @@ def build(tier, seed):
                                                                     (at(r, 0) == o.other) if lab == "label" else prefix_of(o.other, r)),
                  native_gen=fix_wires)]))
 
+    # ================================================================================================================================
+    # lift: a list of a SYMBOLIC NUMBER of Wires objects (axiomatic sequence of Wires records, each with a label sequence of symbolic length)
+    # ================================================================================================================================
+    import ast as _ast
+    from vf.pyvc.ext import XInterp, with_standin
+    from vf.pyvc.interp import SymGen, IDENTITY
+    wl = World(WIRES, classes={"Wires": {"_labels": LSEQ, "_hash": Int}}, functions=["_process"],
+               extra_builtins={"math.get_interface": lambda it, a, k: "python-container", "math.is_abstract": lambda it, a, k: False})
+    wl.aseq(Label)
+    TW = wl.aseq(RecT("Wires"))
+    WDT = wl.classes["Wires"].datatype(wl)
+    LAB = WDT.accessor(0, 0)                                             # the label sequence of a Wires record
+    FLAT = z3.Function("all_labels_in_order", TW.sort, TH.sort)          # concatenation of the label sequences (snoc-defined)
+    ANYMEM = z3.Function("in_some_object", TW.sort, LabelSort, z3.BoolSort())
+    ALLMEM = z3.Function("in_every_object", TW.sort, LabelSort, z3.BoolSort())
+
+    def flat_defs(s_, w_, x_):
+        snoc = TW.SNOC(s_, w_)
+        return [FLAT(TW.EMPTY) == TH.EMPTY, FLAT(snoc) == TH.APP(FLAT(s_), LAB(w_)),
+                z3.Not(ANYMEM(TW.EMPTY, x_)), ANYMEM(snoc, x_) == z3.Or(ANYMEM(s_, x_), TH.MEM(LAB(w_), x_)),
+                ALLMEM(TW.EMPTY, x_), ALLMEM(snoc, x_) == z3.And(ALLMEM(s_, x_), TH.MEM(LAB(w_), x_))]
+
+    class LInterp(XInterp):
+        """generators over the list of Wires objects are read by their meaning: `(w if isinstance(w, Wires) else Wires(w) for w in L)` is L itself for
+        Wires elements; `itertools.chain(*(w.labels for w in L))` is the concatenation FLAT(L); `[w.toset() for w in L]` folded with `&` is ALLMEM"""
+
+        def sym_comp(self, n, env):
+            if len(n.generators) == 1 and not n.generators[0].ifs:
+                itv = self.eval(n.generators[0].iter, env)
+                if isinstance(itv, SymGen) and itv.val is IDENTITY:
+                    g = n.generators[0]
+                    env["__gen_src__"] = itv.it
+                    n2 = type(n)(elt=n.elt, generators=[_ast.comprehension(target=g.target, iter=_ast.Name(id="__gen_src__", ctx=_ast.Load()), ifs=[], is_async=0)])
+                    _ast.copy_location(n2, n)
+                    _ast.fix_missing_locations(n2)
+                    return super().sym_comp(n2, env)
+            return super().sym_comp(n, env)
+
+        def e_Call(self, n, env):
+            if isinstance(n.func, _ast.Attribute) and n.func.attr == "chain" and len(n.args) == 1 and isinstance(n.args[0], _ast.Starred) and not n.keywords:
+                g = self.eval(n.args[0].value, env)
+                if isinstance(g, SymGen) and isinstance(g.val, SeqV) and self.same_term(g.val.term, LAB(TW.AT(g.it.term, g.i))):
+                    return SeqV(FLAT(g.it.term), Label, False)
+                raise Unsupp("itertools.chain(*...) of this argument")
+            return super().e_Call(n, env)
+
+        def sym_map(self, it_, i, val):
+            if isinstance(val, SetV) and val.term is not None and self.same_term(val.term, TH.SETOF(LAB(TW.AT(it_.term, i)))):
+                return SetsOf(it_)                       # [w.toset() for w in L]: kept symbolic as "the label sets of L"
+            return super().sym_map(it_, i, val)
+
+    class SetsOf:
+        """the list of the label sets of the objects of a symbolic list of Wires"""
+
+        def __init__(self, lst):
+            self.lst = lst
+
+    def reduce_model(it, args, kw):
+        f, xs = args[0], args[1]
+        if not isinstance(xs, SetsOf) or len(args) != 2:
+            raise Unsupp("functools.reduce of this argument")
+        a_, b_ = z3.Const("red_a", TH.SetSort), z3.Const("red_b", TH.SetSort)
+        probe = it.call(f, [SetV(a_, Label), SetV(b_, Label)], {})
+        if not (isinstance(probe, SetV) and it.same_term(probe.term, z3.SetIntersect(a_, b_))):
+            raise Unsupp("functools.reduce with a function that is not the intersection")
+        L = xs.lst.term
+        if not it.ctx.branch(TW.LEN(L) >= 1):
+            raise RaiseExc("TypeError")                 # reduce() of an empty sequence with no initial value
+        inter = z3.Const(it.ctx.fresh_name("intersection"), TH.SetSort)
+        x = z3.Const("red_x", LabelSort)
+        # left fold of & over the label sets: x is in the result iff it is in every set -- the snoc-defined ALLMEM
+        it.ctx.assume(z3.ForAll([x], z3.Select(inter, x) == ALLMEM(L, x), patterns=[z3.Select(inter, x)]))
+        it.ctx.havocked = True
+        return SetV(inter, Label)
+    wl.extra_builtins["functools.reduce"] = reduce_model
+
+    def each_nodup(v):
+        k = z3.Int("k_obj")
+        return z3.ForAll([k], z3.Implies(z3.And(0 <= k, k < TW.LEN(v.term)), TH.NODUP(LAB(TW.AT(v.term, k)))), patterns=[TW.AT(v.term, k)])
+    LWS = SeqT(RecT("Wires"), ax=True, where=each_nodup)
+
+    def fix_list(rng, m):
+        out = fix_wires(rng, m)
+        return out
+
+    def native_flat(lst):
+        return [x for wobj in lst for x in wobj.labels]
+
+    def all_wires_post(o, r, n):
+        if isinstance(o.list_of_wires, SeqV):
+            F = FLAT(o.list_of_wires.term)
+            x, y = z3.Const("o_x", LabelSort), z3.Const("o_y", LabelSort)
+            order = z3.ForAll([x, y], z3.Implies(z3.And(mem(r, x), mem(r, y)), (TH.IDX(seq(r), x) < TH.IDX(seq(r), y)) == (TH.IDX(F, x) < TH.IDX(F, y))))
+            return And(set_result(r, lambda x_: TH.MEM(F, x_)), order)
+        return type(r).__name__ == "Wires" and list(r.labels) == list(dict.fromkeys(native_flat(o.list_of_wires)))
+    lifted = [FnContract(wl, "Wires.all_wires", [
+        Case("any-number-of-wires-objects", {"list_of_wires": LWS, "sort": T("const", False)}, ensures=all_wires_post, native_gen=fix_list)])]
+
+    def first_labels(v):
+        return LAB(TW.AT(v.term, 0))
+
+    def shared_inv_l(v):
+        fs = first_labels(v.list_of_wires)
+        taken = TH.TAKE(fs, v._i1)
+        a_, b_ = z3.Ints("sh_a sh_b")
+        sh = seq(v.shared)
+        return And(nodup(v.shared), forall_label(lambda x: mem(v.shared, x) == And(TH.MEM(taken, x), mem(v.intersecting_wires, x)), v.list_of_wires),
+                   forall_pos(v.shared, lambda k: And(TH.MEM(fs, at(v.shared, k)), TH.IDX(fs, at(v.shared, k)) < v._i1)),
+                   z3.ForAll([a_, b_], z3.Implies(z3.And(0 <= a_, a_ < b_, b_ < TH.LEN(sh)), TH.IDX(fs, TH.AT(sh, a_)) < TH.IDX(fs, TH.AT(sh, b_))),
+                             patterns=[z3.MultiPattern(TH.AT(sh, a_), TH.AT(sh, b_))]))
+
+    def shared_post_l(o, r, n):
+        if isinstance(o.list_of_wires, SeqV):
+            L = o.list_of_wires.term
+            fs = first_labels(o.list_of_wires)
+            x, y = z3.Const("o_x", LabelSort), z3.Const("o_y", LabelSort)
+            order = z3.ForAll([x, y], z3.Implies(z3.And(mem(r, x), mem(r, y)), (TH.IDX(seq(r), x) < TH.IDX(seq(r), y)) == (TH.IDX(fs, x) < TH.IDX(fs, y))))
+            return And(set_result(r, lambda x_: And(TH.MEM(fs, x_), ALLMEM(L, x_))), order)
+        objs = list(o.list_of_wires)
+        return type(r).__name__ == "Wires" and list(r.labels) == [x for x in objs[0].labels if all(x in w_.labels for w_ in objs)]
+
+    def llen(v):
+        return TW.LEN(v.term) if isinstance(v, SeqV) else len(v)
+    lifted.append(FnContract(wl, "Wires.shared_wires", [
+        Case("any-number-of-wires-objects", {"list_of_wires": LWS},
+             loops={0: LoopSpec(inv=lambda v: True), 1: LoopSpec(inv=shared_inv_l, types={"shared": LLIST})},
+             ensures=shared_post_l, raises={"TypeError": lambda o: llen(o.list_of_wires) == 0}, must_return=lambda o: llen(o.list_of_wires) >= 1,
+             native_gen=fix_list)]))
+
+    # ---- string labels: the isinstance(wires, str) branch of _process (a string is ONE label, never iterated over) ---------------------------
+    class SInterp(XInterp):
+        def is_kind(self, v, nm):
+            if isinstance(v, z3.ExprRef) and v.get_id() in self.ctx.ghost.get("str_labels", ()):
+                return nm in ("str", "Hashable")
+            return super().is_kind(v, nm)
+
+    def str_label(ctx, nm):
+        c = z3.Const(ctx.fresh_name(nm), LabelSort)
+        ctx.ghost.setdefault("str_labels", set()).add(c.get_id())
+        # a one-element set has one element (the cardinality function is otherwise only axiomatised through sequences)
+        ctx.assume(TH.CARDSET(z3.SetAdd(z3.EmptySet(LabelSort), c)) == 1)
+        return c
+    STR = T("build", str_label, gen=lambda rng: rng.choice(["aux", "q1", "wire-7", ""]))
+    str_cases = [FnContract(w, "_process", [
+        Case("string-label", {"wires": STR}, ensures=lambda o, r, n: And(ln(r) == 1, at(r, 0) == o.wires))]),
+        FnContract(w, "Wires.__init__", [
+            Case("from-string-label", {"self": T("rec", "Wires"), "wires": STR},
+                 ensures=lambda o, r, n: And(ln(n.self) == 1, at(n.self, 0) == o.wires),
+                 native_call=lambda mod, a: (a["self"].__init__(a["wires"]), a["self"])[1])])]
+    for fc in str_cases:
+        for case in fc.cases:
+            case.interp_cls = SInterp
+        for ob, case in zip(obligations_for("C45", fc, tier), fc.cases):
+            plan.add(ob)
+
+    for fc in lifted:
+        for case in fc.cases:
+            case.interp_cls = LInterp
+        for ob, case in zip(obligations_for("C45", fc, tier), fc.cases):
+            plan.add(with_standin(ob, fc, case, tries=500, budget_s=20))
+        plan.fn_under_contract(WIRES, fc.qualname)
+    xs_, ws_ = z3.Const("lx", LabelSort), z3.Const("lw", WDT)
+    Ls_ = z3.Const("lL", TW.sort)
+    plan.add(lemma("C45", "flat-members/base", [xs_], TH.MEM(FLAT(TW.EMPTY), xs_) == ANYMEM(TW.EMPTY, xs_), assumptions=flat_defs(Ls_, ws_, xs_) + TH.axioms))
+    plan.add(lemma("C45", "flat-members/step", [xs_], TH.MEM(FLAT(TW.SNOC(Ls_, ws_)), xs_) == ANYMEM(TW.SNOC(Ls_, ws_), xs_),
+                   assumptions=[TH.MEM(FLAT(Ls_), xs_) == ANYMEM(Ls_, xs_)] + flat_defs(Ls_, ws_, xs_) + TH.axioms))
+
     for fc in contracts:
         for ob in obligations_for("C45", fc, tier):
             plan.add(ob)
